@@ -2,7 +2,7 @@
 
 use proc_macro2::{Literal, TokenStream};
 use quote::{format_ident, quote, ToTokens};
-use syn::spanned::Spanned as _;
+use syn::{ext::IdentExt as _, spanned::Spanned as _};
 
 use crate::utils::{
     attr::{self, ParseMultiple as _},
@@ -106,7 +106,7 @@ impl ToTokens for Expansion {
                     let ret = {
                         let inc = Literal::usize_unsuffixed(inc);
                         fields.is_empty().then_some((
-                            format_ident!("__DISCRIMINANT_{ident}"),
+                            format_ident!("__DISCRIMINANT_{}", ident.unraw()),
                             (
                                 quote! { (#last_discriminant) + #inc },
                                 quote! { #ident #fields },
